@@ -7,7 +7,7 @@ The model (`Model/Canonicalize.lean`) takes what the real `urlsplit` returns for
 input (`Parsed`) and produces the components of the result (`canonComps`), which
 `unsplit_netloc` + `urlunsplit` then print.  The theorems below say, component by component
 and for EVERY parsed input and option setting, that the result denotes the same resource
-(`view`-equality of DESIGN §6 C01).  Re-parsing of the printed result is CPython's
+(`view`-equality of DESIGN §6 C01; the path clause: `canon_path`).  Re-parsing of the printed result is CPython's
 `urlsplit`: that it gives back these components is checked on every run by the oracle
 (which re-parses the real output), and supported here by `canon_no_new_delimiter`
 (no component acquires a raw delimiter that would move a component boundary).
@@ -138,8 +138,8 @@ theorem path_quote_view (path : Str) : pathView (safelyQuote path) = pathView pa
 from the unescaped input path (`canonPath`), the path of the result has the view of `cp`, and
 the unescaped input path has the view of the input path.  What remains between the two —
 that `normpath` + the trailing-slash and empty-path rules compute `pathView` of their
-argument — is the plain-string resolution, compared with the implementation and checked by
-the oracle on every run (not yet a theorem: `UNPROVED` in the evidence). -/
+argument — is the plain-string resolution: `normpath_view` below; `canon_path` puts the two
+halves together. -/
 theorem canon_path_escaping (puny : Str → Str) (quoted sf : Bool) (p : Parsed) :
     ∃ cp, pathView (canonComps puny quoted sf p).path = pathView cp ∧
       cp = canonPath p.path (!p.query.isEmpty || truthy (if sf then none else some p.fragment)) ∧
